@@ -431,8 +431,10 @@ def dump (r : Rd) (f : File) : Res (Bytes × Nat × File × Rd) :=
 
 /-! ### writing -/
 
-/-- `GetDirectoryHeader`: raw re-emission when `raw` is present, otherwise synthesis.  Synthesis
-    of a ZIP64 entry *mutates* `f.Extra` (the ZIP64 extra is prepended on every call). -/
+/-- `GetDirectoryHeader`: raw re-emission when `raw` is present, otherwise synthesis.  The ZIP64 field is synthesised
+    into a copy of the extra block: the `File` is returned UNCHANGED (fix 7d5f1c2, F-APPX-ZIP64; the second component is
+    kept so that `headersOf` / `writeDirectory` keep their shape — it is always `f`).  The code before that fix stored
+    the synthesised extra back into `f.Extra`: `getDirectoryHeaderOrig` below. -/
 def getDirectoryHeader (f : File) : Bytes × File :=
   if f.raw ≠ [] then (f.raw, f) else
   let big := f.csize ≥ u32Max ∨ f.usize ≥ u32Max ∨ f.offset ≥ u32Max
@@ -445,7 +447,7 @@ def getDirectoryHeader (f : File) : Bytes × File :=
     leBytes 4 (if big then u32Max else f.csize) ++ leBytes 4 (if big then u32Max else f.usize) ++
     leBytes 2 f.name.length ++ leBytes 2 extra.length ++ leBytes 2 f.comment.length ++ leBytes 2 0 ++
     leBytes 2 f.iattrs ++ leBytes 4 f.eattrs ++ leBytes 4 (if big then u32Max else f.offset)
-  (hdr ++ f.name ++ extra ++ f.comment, { f with extra := extra })
+  (hdr ++ f.name ++ extra ++ f.comment, f)
 
 def headersOf : List File → Bytes × List File
   | [] => ([], [])
@@ -473,6 +475,30 @@ def endRecords (count size cdoff : Nat) (force : Bool) (minV : Nat) : Bytes :=
     concatenate): central entries, end-of-directory bytes, and the directory with mutated files. -/
 def writeDirectory (d : Directory) (force : Bool) : Bytes × Bytes × Directory :=
   let (cd, fs) := headersOf d.files
+  (cd, endRecords d.files.length cd.length d.dirLoc force (maxReader d.files), { d with files := fs })
+
+/-! ### the code before fix 7d5f1c2 (F-APPX-ZIP64): `GetDirectoryHeader` mutated `f.Extra`
+
+  Synthesis of a ZIP64 entry stored the extra block WITH the prepended ZIP64 field back into the `File`, so that every
+  further call prepended the field again (`Props.C17.write_directory_twice_prepends_twice_orig`). -/
+
+def getDirectoryHeaderOrig (f : File) : Bytes × File :=
+  if f.raw ≠ [] then (f.raw, f) else
+  let big := f.csize ≥ u32Max ∨ f.usize ≥ u32Max ∨ f.offset ≥ u32Max
+  let extra := if big then
+      leBytes 2 1 ++ leBytes 2 24 ++ leBytes 8 f.usize ++ leBytes 8 f.csize ++ leBytes 8 f.offset ++ f.extra
+    else f.extra
+  ((getDirectoryHeader f).1, { f with extra := extra })
+
+def headersOfOrig : List File → Bytes × List File
+  | [] => ([], [])
+  | f :: fs =>
+    let (b, f') := getDirectoryHeaderOrig f
+    let (bs, fs') := headersOfOrig fs
+    (b ++ bs, f' :: fs')
+
+def writeDirectoryOrig (d : Directory) (force : Bool) : Bytes × Bytes × Directory :=
+  let (cd, fs) := headersOfOrig d.files
   (cd, endRecords d.files.length cd.length d.dirLoc force (maxReader d.files), { d with files := fs })
 
 /-! ### fix-F7g: `GetDirectoryHeader` refuses a ZIP64 entry whose extra block has no room for the ZIP64 field
